@@ -67,12 +67,14 @@ def repo_files():
     out += [os.path.join(REPO, "Cargo.toml"), os.path.join(REPO, "Cargo.lock")]
     return [p for p in out if os.path.exists(p)]
 
+GENERATED_V = ("TablesGen.v", "ConstsGen.v", "SrcGen.v", "SrcTieLevel.v", "SrcTieTables.v", "SrcTiePreds.v")
+
 def verif_files():
     out = []
-    for d, exts in (("coq", (".v",)), ("harness/src", (".rs",)), ("ocaml", (".ml",)), ("tools", (".py",)), ("corpus", (".txt",))):
+    for d, exts in (("coq", (".v", ".in")), ("harness/src", (".rs",)), ("rs2v/src", (".rs",)), ("ocaml", (".ml",)), ("tools", (".py",)), ("corpus", (".txt",))):
         for base, _, files in os.walk(os.path.join(ROOT, d)):
-            out += [os.path.join(base, f) for f in files if f.endswith(exts) and f not in ("TablesGen.v", "ConstsGen.v")]
-    out += [os.path.join(ROOT, "harness/Cargo.toml"), os.path.join(ROOT, "coq/_CoqProject")]
+            out += [os.path.join(base, f) for f in files if f.endswith(exts) and f not in GENERATED_V]
+    out += [os.path.join(ROOT, "harness/Cargo.toml"), os.path.join(ROOT, "coq/_CoqProject"), os.path.join(ROOT, "rs2v/Cargo.toml")]
     return [p for p in out if os.path.exists(p)]
 
 class Lock:
@@ -89,15 +91,83 @@ def write_if_changed(path, content):
     if old != content:
         open(path, "w").write(content)
 
+TIE_TEMPLATES = ["SrcTieLevel", "SrcTieTables", "SrcTiePreds"]
+# which properties lean on which translated-source tie file
+TIE_PROPS = {"C19": ["Proofs/SrcTieLevel.v"], "C14": ["Proofs/SrcTieTables.v"], "C15": ["Proofs/SrcTieTables.v"],
+             "C01": ["Proofs/SrcTiePreds.v"], "C11": ["Proofs/SrcTieLevel.v"]}
+# a tie file that stops compiling is a broken obligation, except where the correspondence is EXHAUSTIVE over
+# the function's whole (finite) domain and is therefore a complete tie on its own
+TIE_FALLBACK_EXHAUSTIVE = {"C14", "C15"}
+
+def stage_translate(tmp):
+    """rs2v (syn-based translator: data + small pure functions) on /repo's working tree; the older regex
+    translator gen_tables.py is kept as an independent cross-check of the data part.
+    Returns dict(ok, report, problems[], notes[])."""
+    problems, notes = [], []
+    env = dict(ENV, CARGO_TARGET_DIR=os.path.join(CACHE, "rs2v-target"))
+    rc, out, _ = sh(["cargo", "build", "--offline", "--quiet", "--release"], cwd=os.path.join(ROOT, "rs2v"), env=env, timeout=1800)
+    rs2v = os.path.join(CACHE, "rs2v-target", "release", "rs2v")
+    report = {"translated": [], "skipped": [], "fatal": ["rs2v did not build: " + out[-300:]]}
+    rs_ok = False
+    if rc == 0 and os.path.exists(rs2v):
+        d = os.path.join(tmp, "rs2v"); os.makedirs(d, exist_ok=True)
+        for f in os.listdir(d): os.remove(os.path.join(d, f))
+        rc, out, _ = sh([rs2v, REPO, d])
+        try:
+            report = json.load(open(os.path.join(d, "rs2v_report.json")))
+        except Exception:
+            report = {"translated": [], "skipped": [], "fatal": ["rs2v crashed: " + out[-300:]]}
+        rs_ok = rc == 0 and not report["fatal"]
+    d2 = os.path.join(tmp, "py"); os.makedirs(d2, exist_ok=True)
+    rc2, out2, _ = sh([sys.executable, os.path.join(ROOT, "tools/gen_tables.py"), d2])
+    py_ok = rc2 == 0
+    body = lambda path: "".join(l for l in open(path) if not l.startswith("(*") and "max_implicit_depth_src" not in l)
+    if rs_ok:
+        for f in ("TablesGen.v", "ConstsGen.v", "SrcGen.v"):
+            write_if_changed(os.path.join(COQ, f), open(os.path.join(tmp, "rs2v", f)).read())
+        if py_ok:
+            for f in ("TablesGen.v", "ConstsGen.v"):
+                if body(os.path.join(tmp, "rs2v", f)) != body(os.path.join(d2, f)):
+                    problems.append("the two translators disagree on " + f)
+        else:
+            notes.append("cross-check translator gen_tables.py could not parse the source (%s); rs2v alone was used" % out2.strip()[-160:])
+    elif py_ok:
+        notes.append("rs2v failed (%s); data regenerated by gen_tables.py, no function translated" % "; ".join(report["fatal"])[:300])
+        for f in ("TablesGen.v", "ConstsGen.v"):
+            src = open(os.path.join(d2, f)).read()
+            if f == "ConstsGen.v":
+                m = re.search(r"Definition max_depth : nat := (\d+)\.", src)
+                src = src.replace("Definition bracket_limit", "Definition max_implicit_depth_src : nat := %d.\nDefinition bracket_limit" % (int(m.group(1)) + 1))
+            write_if_changed(os.path.join(COQ, f), src)
+        write_if_changed(os.path.join(COQ, "SrcGen.v"), "(* rs2v failed: no function translated *)\nFrom BidiVerif Require Import Base ConstsGen TablesGen RsPrelude.\n")
+        report["translated"] = []
+    else:
+        problems.append("translator failed: rs2v: %s; gen_tables.py: %s" % ("; ".join(report["fatal"])[:300], out2.strip()[-200:]))
+    # tie files: keep the lemma blocks whose functions were translated
+    have = set(r for r, _ in report.get("translated", []))
+    kept, dropped = 0, []
+    for t in TIE_TEMPLATES:
+        src = open(os.path.join(COQ, "Proofs", t + ".v.in")).read()
+        def sub(m):
+            nonlocal kept
+            needs = m.group(1).split()
+            if all(n in have for n in needs):
+                kept += 1; return m.group(2)
+            dropped.append([n for n in needs if n not in have])
+            return "(* block dropped: not translated: %s *)\n" % " ".join(n for n in needs if n not in have)
+        res = re.sub(r"\(\*@ needs ([^*]*?)\*\)\n(.*?)\(\*@ end \*\)\n", sub, src, flags=re.S)
+        write_if_changed(os.path.join(COQ, "Proofs", t + ".v"), res)
+    return {"ok": not problems, "report": report, "problems": problems, "notes": notes, "tie_blocks_kept": kept,
+            "tie_blocks_dropped": dropped}
+
 def stage_coq():
     """Returns dict: ok, log, theorems (name -> assumptions text), failed_files"""
     status_path = os.path.join(CACHE, "coq_status.json")
     tmp = os.path.join(CACHE, "gen"); os.makedirs(tmp, exist_ok=True)
-    rc, out, _ = sh([sys.executable, os.path.join(ROOT, "tools/gen_tables.py"), tmp])
-    if rc != 0:
-        return {"ok": False, "translator_failed": True, "log": out, "theorems": {}, "failed": ["translator"]}
-    for f in ("TablesGen.v", "ConstsGen.v"):
-        write_if_changed(os.path.join(COQ, f), open(os.path.join(tmp, f)).read())
+    tr = stage_translate(tmp)
+    if not tr["ok"] and any(p.startswith("translator failed") for p in tr["problems"]):
+        return {"ok": False, "translator_failed": True, "log": "; ".join(tr["problems"]), "theorems": {}, "failed": ["translator"],
+                "translate": tr}
     # the committed Coq reference must be what the committed text reference says
     rc_ref, _, _ = sh([sys.executable, os.path.join(ROOT, "tools/mk_ucdref.py"), "--check"])
     key = sha([os.path.join(COQ, f) for f in os.listdir(COQ) if f.endswith(".v")] +
@@ -106,11 +176,34 @@ def stage_coq():
     if os.path.exists(status_path):
         st = json.load(open(status_path))
         if st.get("key") == key and os.path.exists(os.path.join(COQ, "bidi_model.ml")):
+            st["translate"] = tr
             return st
     log("building the Coq development")
     sh("coq_makefile -f _CoqProject -o Makefile", cwd=COQ)
     rc, out, dt = sh("timeout 3000 make -k -j%d 2>&1" % NPROC, cwd=COQ, timeout=3100)
     failed = re.findall(r"\*\*\* \[[^\]]*?([A-Za-z0-9_/]+)\.vo\]", out)
+    # a file that failed keeps its previous .vo, and make does not rebuild its dependents: remove those stale
+    # objects so that nothing downstream of a broken proof can pass as "compiled"
+    if failed:
+        rdeps = {}
+        rc_d, out_d, _ = sh("coqdep -f _CoqProject 2>/dev/null", cwd=COQ)
+        for ln in out_d.splitlines():
+            if ":" not in ln: continue
+            lhs, rhs = ln.split(":", 1)
+            tgt = [x for x in lhs.split() if x.endswith(".vo")]
+            if not tgt: continue
+            for dep in [x for x in rhs.split() if x.endswith(".vo")]:
+                rdeps.setdefault(dep[:-3], set()).add(tgt[0][:-3])
+        todo, stale = list(set(failed)), set()
+        while todo:
+            f = todo.pop()
+            if f in stale: continue
+            stale.add(f); todo += list(rdeps.get(f, []))
+        for f in stale:
+            for ext in (".vo", ".vok", ".vos", ".glob"):
+                try: os.remove(os.path.join(COQ, f + ext))
+                except OSError: pass
+        failed = sorted(stale)
     # hygiene: no Admitted / axioms / disabled checks anywhere in the sources
     bad = []
     pat = re.compile(r"\b(Admitted|admit|Axiom|Axioms|Parameter|Parameters|Conjecture|Hypothesis|Variable\s+\w+\s*:\s*.*\bAxiom|Unset\s+Guard|bypass_check|type-in-type|impredicative-set|Admit\s+Obligations)\b")
@@ -130,7 +223,7 @@ def stage_coq():
         theorems[m.group(1)] = m.group(2).strip()
     if rc_ref != 0: bad.append("UcdRef.v differs from ref/*.txt (tools/mk_ucdref.py --check)")
     st = {"key": key, "ok": rc == 0 and not bad, "rc": rc, "failed": sorted(set(failed)), "hygiene": bad,
-          "theorems": theorems, "wall_s": dt, "log_tail": out[-6000:]}
+          "theorems": theorems, "wall_s": dt, "log_tail": out[-6000:], "translate": tr}
     json.dump(st, open(status_path, "w"), indent=1)
     open(os.path.join(CACHE, "coq_build.log"), "w").write(out)
     return st
@@ -309,6 +402,34 @@ def proof_status(prop, coq):
         else:
             problems.append("not compiled: " + f)
     if coq.get("hygiene"): problems += ["hygiene: " + h for h in coq["hygiene"]]
+    # the translated-source ties this property leans on
+    tr = coq.get("translate") or {}
+    tie = {"files": TIE_PROPS.get(prop, []), "established": [], "not_established": [], "notes": list(tr.get("notes", []))}
+    if coq.get("translator_failed"):
+        problems.append("the translator could not read the source: " + coq.get("log", "")[:400])
+    if prop in ("C11", "C14", "C15"):
+        problems += [x for x in tr.get("problems", []) if x.startswith("the two translators disagree")]
+    skipped = {r: why for r, why in (tr.get("report") or {}).get("skipped", [])}
+    for tf in tie["files"]:
+        tsrc = os.path.join(COQ, tf)
+        if not os.path.exists(tsrc): continue
+        txt = re.sub(r"\(\*.*?\*\)", "", open(tsrc).read(), flags=re.S)
+        lem = re.findall(r"^\s*Lemma\s+(tie_\w+)", txt, re.M)
+        n = len(re.findall(r"^\s*(?:Theorem|Lemma|Corollary|Example|Fact|Proposition|Remark)\s", txt, re.M))
+        obligations += n
+        vo = os.path.join(COQ, tf + "o")
+        if os.path.exists(vo) and os.path.getmtime(vo) >= os.path.getmtime(tsrc):
+            discharged += n; tie["established"] += lem
+        elif prop in TIE_FALLBACK_EXHAUSTIVE:
+            tie["not_established"] += lem
+            tie["notes"].append("%s no longer checks; this property's correspondence is exhaustive over the function's whole domain and is the tie" % tf)
+        else:
+            tie["not_established"] += lem
+            problems.append("translated-source tie no longer checks: " + tf)
+        stem = {"Proofs/SrcTieLevel.v": "level::", "Proofs/SrcTieTables.v": "char_data::", "Proofs/SrcTiePreds.v": ("prepare::", "implicit::", "char_data::is_rtl")}[tf]
+        for r, why in skipped.items():
+            if r.startswith(stem):
+                tie["notes"].append("not translated: %s (%s); the correspondence run is the only tie for it" % (r, why))
     # Print Assumptions of each property theorem, by a fresh coqc run
     thms = {}
     pad = os.path.join(CACHE, "pa"); os.makedirs(pad, exist_ok=True)
@@ -331,7 +452,7 @@ def proof_status(prop, coq):
         if len(chunks) != len(idx["theorems"]):
             problems.append("could not read Print Assumptions for every theorem")
     return {"ok": not problems, "present": True, "obligations": obligations, "discharged": discharged,
-            "theorems": thms, "files": files, "problems": problems, "full": bool(idx.get("full")),
+            "theorems": thms, "files": files, "problems": problems, "full": bool(idx.get("full")), "tie": tie,
             "statement": idx.get("statement", ""), "partial_note": idx.get("partial_note", "")}
 
 # ---------------------------------------------------------------------------------------------
@@ -396,7 +517,7 @@ def shrink_text_case(prop, line, hbin):
     """delta-debugging on the characters of a T case: keep removing characters while the judge
     still fails for [prop] on the implementation's output"""
     f = line.split("\t")
-    if f[0] != "T" or len(f) < 7: return line
+    if f[0] != "T" or len(f) < 7 or os.environ.get("VERIF_NOSHRINK"): return line
     tags = f[7] if len(f) > 7 else ""
     if "twin:" in tags or "iso:" in tags: return line
     driver = os.path.join(CACHE, "ocaml", "driver")
@@ -508,13 +629,14 @@ def decide_from_corr(prop, tier, seed):
         "generator_distribution": meta.get("gen_stats", {}),
         "obligations": ps["obligations"], "discharged": ps["discharged"],
         "checker_cmd": "cd /verif/coq && coq_makefile -f _CoqProject -o Makefile && make (coqc 8.16.1, full .vo build); Print Assumptions per theorem",
-        "trusted_base": ["Coq 8.16.1 kernel + vm_compute", "tools/gen_tables.py (translator)", "Extraction (ExtrOcamlBasic only) + ocaml/driver.ml glue",
+        "trusted_base": ["Coq 8.16.1 kernel + vm_compute", "rs2v (syn-based translator of tables, constants and small functions; cross-checked by tools/gen_tables.py)", "Extraction (ExtrOcamlBasic only) + ocaml/driver.ml glue",
                          "harness/src (Rust driver of the real crate)", "Spec.v as transcription of UAX#9"] +
                         ["%s: %s" % (t, a.replace("\n", " ")) for t, a in ps["theorems"].items()],
         "explanation": ("Theorems: %s. %s Correspondence: the real crate and the extracted Coq model ran %d cases (seed %d, tier %s) and were compared on the fields this property depends on; the extracted judge %s_judge was applied to the real crate's outputs."
                         % (", ".join(ps["theorems"].keys()) or "none yet", ps.get("partial_note", ""), len(mine), seed, tier, prop)),
         "proof_problems": ps["problems"],
         "theorem_statement": ps.get("statement", ""),
+        "source_translation": ps.get("tie", {}),
     }
     rc = 0
     if violations or not ps["ok"]:
@@ -617,10 +739,11 @@ def decide_dump(prop, tier, seed, mode, keep, what):
            "traces_validated_against_impl": n_impl * len(hars),
            "obligations": ps["obligations"], "discharged": ps["discharged"],
            "checker_cmd": "cd /verif/coq && make (coqc 8.16.1, full .vo build); Print Assumptions per theorem",
-           "trusted_base": ["Coq 8.16.1 kernel + vm_compute", "tools/gen_tables.py (translator)", "Extraction (ExtrOcamlBasic) + ocaml/driver.ml",
+           "trusted_base": ["Coq 8.16.1 kernel + vm_compute", "rs2v (syn-based translator of tables, constants and small functions; cross-checked by tools/gen_tables.py)", "Extraction (ExtrOcamlBasic) + ocaml/driver.ml",
                             "harness (exhaustive dump through the public API)"] + ["%s: %s" % (t, a.replace("\n", " ")) for t, a in ps["theorems"].items()],
            "explanation": "Exhaustive tie: %s. Theorems: %s. %s" % (what, ", ".join(ps["theorems"].keys()) or "none yet", ps.get("partial_note", "")),
-           "proof_problems": ps["problems"], "theorem_statement": ps.get("statement", "")}
+           "proof_problems": ps["problems"], "theorem_statement": ps.get("statement", ""),
+           "source_translation": ps.get("tie", {})}
     if viol:
         concrete = problems + extra
         rp = write_replay(prop, "input" if concrete else "broken",
